@@ -21,7 +21,8 @@ RULE = ("generated literal interface family (as C01, without rpc/encoded) x ever
         " ; the client's own prefix under both path separators; an attribute whose name starts with an underscore; members present for iteration, len and in"
         ' ; unknown attribute steps (@name) raise TypeNotFound'
         ' ; pre-built nested children like their type; unknown steps in the middle of a path'
-        ' ; simpleContent over an enumeration without attributes')
+        ' ; simpleContent over an enumeration without attributes'
+        ' ; names of built-in typed steps; bare simpleContent; member order of derived types')
 ASSUMPTIONS = ["a name with a prefix the client does not know raises a plain Exception('prefix not resolved'), not "
                "TypeNotFound: unknown *prefixes* are outside the alphabet of unknown names",
                "factory objects of section-5 array types are outside the family",
